@@ -69,6 +69,38 @@ theorem cached_offset_exact_on_remove (g : Graph) (s : State) (x : Proxy)
   simp only [hoff, if_true]
   exact cached_offset_recomputed g _
 
+/-- **Full statement** (the brief: "the cached max offset always equals the maximum over pool members"): in every state
+of every run the cached value is the largest `tdef.max_future_prereq_offset` among the pooled proxies -/
+def cached_offset_exact_full : Prop := ∀ (g : Graph) (ops : List Op), ∀ s ∈ run g ops, s.maxFut = poolMaxOff s
+
+/-- `R1 = a[+P1]:start => b`, `P1 = a; b` on cycles 1..2: `1/b` has a future offset (prerequisite `2/a`), `2/b` has none
+and is parentless -/
+def lazyGraph : Graph :=
+  { icp := 1, fcp := 2, start := 1, runahead := 1, seqs := [[1, 2], [1]], stopPoint := some 2,
+    tasks := [
+      { name := "a",
+        insts := [(1, { pre := [], sui := [], children := [], nextParentless := some 2 }),
+                  (2, { pre := [], sui := [], children := [("started", [⟨"b", 1, false⟩])], nextParentless := none,
+                        ghosts := [("b", 1)] })],
+        firstParentless := some 1, completion := CE.var "succeeded", outputs := [] },
+      { name := "b",
+        insts := [(1, { pre := [{ atoms := [(⟨2, "a", "started"⟩, false)], expr := none }], sui := [], children := [],
+                        nextParentless := some 2, futOff := some 1, ghosts := [("a", 2)] }),
+                  (2, { pre := [], sui := [], children := [], nextParentless := none })],
+        firstParentless := some 2, completion := CE.var "succeeded", outputs := [] }] }
+
+/-- **The full statement is false** for the model and for cylc-flow (observed on the real scheduler in every
+correspondence run of such a workflow: `max_future_prereq_offset` of `b` is 1, `max_future_offset` is `None`, `2/b`
+is pooled): the offset of a task definition is raised lazily - here by the ghost proxy the data store builds for
+`1/b` when `2/a` enters the pool - and `set_max_future_offset` runs only when a proxy whose task definition ALREADY
+has an offset enters or leaves the pool.  Harmless (the pooled instance `2/b` has no future prerequisite), and the
+reason why the invariant is the bracket `cached_offset_bracket` and not an equality. -/
+theorem cached_offset_exact_counterexample : ¬ cached_offset_exact_full := by
+  intro h
+  have := h lazyGraph [] (init lazyGraph) (mem_run_last lazyGraph [])
+  revert this
+  decide
+
 /-! ### the limit -/
 
 /-- **A forced `compute_runahead` (what every change of the cached maximum triggers) yields the specification limit**
